@@ -270,7 +270,9 @@ def run_with_others(case, ids="uuid"):
         return answers_list[k] if k < len(answers_list) else case.get("terminator", sc.TERMINATOR)
 
     imm = case["imm"]
-    main = impl.Run(case["text"], ids=ids, answers=answers, imm=lambda k: imm[k % len(imm)])
+    imo = case.get("imm_other")
+    main = impl.Run(case["text"], ids=ids, answers=answers, imm=lambda k: imm[k % len(imm)],
+                    imm_other=(lambda k: imo[k % len(imo)]) if imo else None)
     oth_ans = sc.Answers(random.Random(5))
     others = [impl.Run(case["text"], ids=ids, answers=oth_ans, imm=lambda k: k % 3 == 0) for _ in range(2)]
     for o in others:
